@@ -287,3 +287,67 @@ def write_replay(pid, payload):
     with open(path, "w") as f:
         json.dump(payload, f, indent=1, ensure_ascii=True, default=str)
     return os.path.relpath(path, VERIF)
+
+
+# ---------------------------------------------------------------- oracle table
+def oracle_value(fn, arg):
+    """External behaviour the model takes as a parameter, computed from the third-party /
+    stdlib libraries directly (never through yarl)."""
+    import unicodedata
+    if fn == "nfkc":
+        return enc(unicodedata.normalize("NFKC", arg))
+    if fn == "idnaEnc":
+        import idna
+        try:
+            return enc(idna.encode(arg, uts46=True).decode("ascii"))
+        except UnicodeError:
+            return "!"
+    if fn == "idnaEncStd":
+        try:
+            return enc(arg.encode("idna").decode("ascii"))
+        except UnicodeError:
+            return "!"
+    if fn == "idnaDec":
+        import idna
+        try:
+            return enc(idna.decode(arg.encode("ascii")))
+        except UnicodeError:
+            return "!"
+    if fn == "idnaDecStd":
+        try:
+            return enc(arg.encode("ascii").decode("idna"))
+        except UnicodeError:
+            return "!"
+    if fn == "isDigitU":
+        return "T" if arg.isdigit() else "F"
+    if fn == "isPrintableU":
+        return "T" if arg.isprintable() else "F"
+    if fn == "intU":
+        try:
+            return str(int(arg))
+        except ValueError:
+            return "!"
+    if fn == "lowerU":
+        return enc(arg.lower())
+    raise Infra("unknown oracle " + fn)
+
+
+def run_model_with_oracles(ops, max_rounds=14):
+    """Run the driver; answer `!O:<fn>:<arg>` misses by prepending `orc` lines and re-running.
+    Returns (final ops incl. orc lines, outputs aligned with them, number of oracle entries)."""
+    known = {}
+    orc_lines = []
+    for _ in range(max_rounds):
+        full = orc_lines + ops
+        out = run_model(full)
+        new = False
+        for r in out:
+            if r.startswith("!O:"):
+                _, fn, arg = r.split(":", 2)
+                if (fn, arg) not in known:
+                    known[(fn, arg)] = oracle_value(fn, dec(arg))
+                    orc_lines.append(f"orc\t{fn}\t{arg}\t{known[(fn, arg)]}")
+                    new = True
+        if not new:
+            return full, out, len(orc_lines)
+    return full, out, len(orc_lines)
